@@ -13,7 +13,7 @@ import numpy
 from fileformats.generic import File, Directory
 from pydra.compose import python
 
-KINDS = ("list", "dict", "set", "attrs", "object", "ndarray", "file", "directory")
+KINDS = ("list", "dict", "set", "attrs", "object", "ndarray", "file", "directory", "list-in-tuple")
 NESTED_KINDS = ("list-in-dict", "dict-in-list", "list-in-attrs", "file-in-list")
 FILE_KINDS = ("file", "directory", "file-in-list")
 COPY_MODES = {"copy": File.CopyMode.copy, "any": File.CopyMode.any}
@@ -39,7 +39,7 @@ class PlainBox:
 
 
 TYPES = {"list": list, "dict": dict, "set": set, "attrs": AttrsBox, "object": PlainBox, "ndarray": numpy.ndarray,
-         "file": File, "directory": Directory, "list-in-dict": dict, "dict-in-list": list, "list-in-attrs": AttrsBox,
+         "file": File, "directory": Directory, "list-in-tuple": tuple, "list-in-dict": dict, "dict-in-list": list, "list-in-attrs": AttrsBox,
          "file-in-list": ty.List[File]}
 
 
@@ -59,6 +59,8 @@ def mutate_in_place(kind: str, x):
             f.write(MARK)
     elif kind == "directory":
         (Path(x.fspath) / "new-file.txt").write_text(MARK)
+    elif kind == "list-in-tuple":  # the container itself is immutable, what it holds is not
+        x[0].append(99)
     elif kind == "list-in-dict":
         x["k"].append(99)
     elif kind == "dict-in-list":
@@ -95,6 +97,8 @@ def make_value(kind: str, d: Path):
         p.mkdir()
         (p / "a.txt").write_text("original-a")
         return Directory(p)
+    if kind == "list-in-tuple":
+        return ([1, 2], "a")
     if kind == "list-in-dict":
         return {"k": [1, 2]}
     if kind == "dict-in-list":
@@ -117,7 +121,7 @@ def _tree(p: Path):
 
 def snapshot(kind: str, x):
     """JSON-able rendering of everything observable about the value (file kinds: path + bytes on disk)"""
-    if kind in ("list", "dict", "list-in-dict", "dict-in-list"):
+    if kind in ("list", "dict", "list-in-dict", "dict-in-list", "list-in-tuple"):
         return repr(x)
     if kind == "set":
         return repr(sorted(x))
